@@ -128,6 +128,27 @@ func init() {
 				// the destination is a writer of the verified packages built in this function: io.Copy is a loop of its Write
 				if info, ok := e.ifaces[dst]; ok {
 					if m := e.w.prog.LookupMethod(info.Dyn, nil, "Write"); m != nil && e.w.inScope(m) && m.Blocks != nil && len(m.Params) == 2 {
+						// io.Copy uses src.WriteTo(dst) when the source has it (calls of dst.Write, modelled by the loop) and otherwise
+						// dst.ReadFrom(src) when the destination has it: a destination of the verified packages that offers ReadFrom
+						// is modelled on both paths
+						if rf := e.w.prog.LookupMethod(info.Dyn, nil, "ReadFrom"); rf != nil && e.w.inScope(rf) && rf.Blocks != nil && len(rf.Params) == 2 {
+							viaWrite := e.fresh(nm+".srcHasWriteTo", "Bool")
+							hA, hB := h.clone(), h.clone()
+							f.copyLoop(in, args, and(pc, viaWrite), hA, nm, resT, m, info.P)
+							rA := f.vals[in.(ssa.Value)]
+							alive := f.staticCall(in, rf, []Val{info.P, args[1]}, nil, and(pc, not(viaWrite)), hB, nm+".rf", resT, in.Pos())
+							rB := f.vals[in.(ssa.Value)]
+							conds := []string{and(pc, viaWrite), and(pc, not(viaWrite))}
+							if !alive {
+								e.assumeIf(pc, viaWrite)
+								*h = *hA
+								f.setResult(in, rA)
+								return true
+							}
+							*h = *e.mergeHeaps(conds, []*Heap{hA, hB})
+							f.setResult(in, e.mergeVals(nm+".copy", resT, conds, []Val{rA, rB}))
+							return true
+						}
 						return f.copyLoop(in, args, pc, h, nm, resT, m, info.P)
 					}
 				}
